@@ -514,7 +514,15 @@ func shapeContent(c *ON, w string, inObject, inArray bool) *shapeErr {
 			return se("rules-type", "%s: rules must be a non-empty array when present", w)
 		}
 		for i, rule := range r.Vals {
-			if e := shapeRule(rule, fmt.Sprintf("%s/rules[%d]", w, i), true); e != nil {
+			rw := fmt.Sprintf("%s/rules[%d]", w, i)
+			if k := rule.S("key"); rule.IsObj() && !jsightRuleNames[k] {
+				// a node's rules are the rules of the JSight schema language, not constraints invented by a compiler pass
+				if strings.Contains(w, "/pathVariables/") {
+					return se("pathVariables-pseudo-rule:"+k, "%s: %q is not a rule of the schema language (tokenType %q)", rw, k, rule.S("tokenType"))
+				}
+				return se("rule-name", "%s: %q is not a rule of the schema language (tokenType %q)", rw, k, rule.S("tokenType"))
+			}
+			if e := shapeRule(rule, rw, true); e != nil {
 				return e
 			}
 		}
@@ -546,6 +554,10 @@ func shapeContent(c *ON, w string, inObject, inArray bool) *shapeErr {
 	}
 	return nil
 }
+
+var jsightRuleNames = map[string]bool{"minLength": true, "maxLength": true, "min": true, "max": true, "exclusiveMinimum": true, "exclusiveMaximum": true,
+	"type": true, "precision": true, "optional": true, "minItems": true, "maxItems": true, "additionalProperties": true, "nullable": true,
+	"regex": true, "const": true, "enum": true, "or": true, "allOf": true}
 
 func shapeRule(r *ON, w string, needKey bool) *shapeErr {
 	if !r.IsObj() {
